@@ -8,6 +8,7 @@ import HcipyVerif.Lemmas.Czt
 import HcipyVerif.Lemmas.Axes
 import HcipyVerif.Lemmas.FftSelect
 import HcipyVerif.Lemmas.FftState
+import HcipyVerif.Lemmas.FftPlan
 
 /-!
 # C01 — every Fourier transform evaluates the same weighted Fourier sum
@@ -359,6 +360,57 @@ theorem fast_backward_eq_fourier_sum (g : Cfg ℝ ℂ) (hN : g.N ≤ g.M) (hMo :
   congr 1
   push_cast
   ring
+
+/-! ### Hypothesis-free: the configuration comes out of `plan`
+
+`plan` (`Model/FftGrid.lean`) is what the driver op `C01 plan` runs and what the harness compares
+with the sizes, cut-outs, output spacing and zero the real `FastFourierTransform` reports.  For every
+request the constructor accepts the hypotheses of the pipeline theorems hold. -/
+
+/-- **`plan` is grid-consistent** for every request `FastFourierTransform.__init__` accepts
+(`0 < N`, `δ ≠ 0`, `1 ≤ q`, `fov ≤ 1`; `q < 1` and `fov > 1` raise in the code, and
+`plan_inconsistent_q_lt_one` / `plan_inconsistent_fov_gt_one` show that they are needed). -/
+theorem plan_consistent' (a : AxisIn) (hN : 0 < a.N) (hδ : a.delta ≠ 0) (hq : 1 ≤ a.q)
+    (hf : a.fov ≤ 1) :
+    FftConsistent a.N (plan a).M (plan a).Mo a.delta (plan a).dT :=
+  plan_consistent a hN hδ hq hf
+
+/-- satisfiability of the side conditions (the D4 request `N = 87, q = 5/2`) -/
+example : ∃ a : AxisIn, 0 < a.N ∧ a.delta ≠ 0 ∧ 1 ≤ a.q ∧ a.fov ≤ 1 :=
+  ⟨⟨87, 1 / 4, -3, 5 / 2, 1, 0⟩, by decide +kernel, by decide +kernel, by decide +kernel, by decide +kernel⟩
+
+/-- **`forward` of the FastFourierTransform that `plan` describes = the defining sum**, with no
+hypothesis on sizes or spacings: any accepted request `(N, δ, z, q, fov, s)`, any weight, both
+shift settings.  `g` is the pipeline configuration built from the plan (the reals that the plan's
+rationals denote). -/
+theorem fast_forward_of_plan (a : AxisIn) (hN : 0 < a.N) (hδ : a.delta ≠ 0) (hq : 1 ≤ a.q)
+    (hf : a.fov ≤ 1) (w : ℂ) (emu : Bool) (f : ℕ → ℂ) (k : ℕ) (hk : k < (plan a).Mo) :
+    let g : Cfg ℝ ℂ := Cfg.ofPlanCast (Rat.castHom ℝ) (plan a) w emu
+    fastForward expT expE g f k
+      = ∑ j ∈ range a.N, f j * w *
+          Complex.exp (-(Complex.I * (((2 * Real.pi * g.a k + g.s : ℝ) : ℂ) * ((g.x j : ℝ) : ℂ)))) := by
+  intro g
+  obtain ⟨h1, h2, h3⟩ := Cfg.ofPlanCast_cons (C := ℂ) (Rat.castHom ℝ) a w emu hN hδ hq hf
+  exact fast_forward_eq_fourier_sum g h1 h2 h3 f k hk
+
+/-- **`backward` of the FastFourierTransform that `plan` describes = the backward sum** with the
+weights of the two grids as the code has them on one axis: input weight `δ`, output weight
+`Δ/(2π) = dT`. -/
+theorem fast_backward_of_plan (a : AxisIn) (hN : 0 < a.N) (hδ : a.delta ≠ 0) (hq : 1 ≤ a.q)
+    (hf : a.fov ≤ 1) (emu : Bool) (F : ℕ → ℂ) (j : ℕ) (hj : j < a.N) :
+    let g : Cfg ℝ ℂ := Cfg.ofPlanCast (Rat.castHom ℝ) (plan a) (((a.delta : ℚ) : ℝ) : ℂ) emu
+    fastBackward expT expE g F j
+      = ∑ k ∈ range (plan a).Mo, F k * ((((plan a).dT : ℚ) : ℝ) : ℂ) *
+          Complex.exp (Complex.I * (((2 * Real.pi * g.a k + g.s : ℝ) : ℂ) * ((g.x j : ℝ) : ℂ))) := by
+  intro g
+  obtain ⟨h1, h2, h3⟩ := Cfg.ofPlanCast_cons (C := ℂ) (Rat.castHom ℝ) a
+    ((((a.delta : ℚ) : ℝ) : ℂ)) emu hN hδ hq hf
+  have hw : ((((plan a).dT : ℚ) : ℝ) : ℂ) * (g.M : ℂ) * g.w = 1 := by
+    have h3' : (((plan a).dT : ℚ) : ℝ) * ((plan a).M : ℝ) * ((a.delta : ℚ) : ℝ) = 1 := h3
+    have : ((((plan a).dT : ℚ) : ℝ) : ℂ) * (((plan a).M : ℕ) : ℂ) * ((((a.delta : ℚ) : ℝ)) : ℂ) = 1 := by
+      exact_mod_cast h3'
+    exact this
+  exact fast_backward_eq_fourier_sum g h1 h2 h3 _ hw F j hj
 
 /-- Non-vacuity: a consistent configuration exists (N = 2, M = 4, Mo = 3, δ = 1/2, dT = 1/2). -/
 example : ∃ g : Cfg ℝ ℂ, g.N ≤ g.M ∧ g.Mo ≤ g.M ∧ g.dT * (g.M : ℝ) * g.δ = 1 :=
